@@ -6,6 +6,7 @@ stops at that step and is flagged as aborted") for EVERY strategy: the strategy'
 arbitrary input of the run-loop model (Model/ScenarioRun.lean).
 -/
 import SpiceEv.Proofs.ScenarioRun
+import SpiceEv.Proofs.Strategies
 set_option linter.unusedSectionVars false
 namespace SpiceEv
 variable {α : Type} [Field α] [LinearOrder α] [IsStrictOrderedRing α]
@@ -76,5 +77,120 @@ example :
     (run (1/100000 : ℚ) [] 3 [o1, o2, o1]).stepI = 2 ∧
     (run (1/100000 : ℚ) [] 3 [o1, o2, o1]).aborted = true := by
   decide +kernel
+
+/-- **Greedy and balanced never break the limit (no stationary battery).**
+For any battery obeying `BatLaw` (0 ≤ average power ≤ the offered power — C01/C02), any prices,
+vehicles, stations, minimum powers and any number of connectors: if before the strategy step every
+connector's load (fixed load − generation) is at most its currently valid limit `cur_max ≥ 0`,
+then after `Greedy.step` / `Balanced.step` (allocation pass in id order, surplus pass with V2G
+support, battery pass) it still is.  Without stationary batteries this is unconditional; the
+battery-support case is `C04_greedy_balanced_loop` below (invariant of the vehicle pass). -/
+theorem C04_greedy_balanced_upper (rule : Rule) {B : Type} (ops : BatOps α B) (law : BatLaw ops)
+    (env : StratEnv α) (heps : 0 ≤ env.eps) (w w' : World α B) (cmds : List (String × α))
+    (hb : w.batteries = [])
+    (h0 : ∀ g ∈ w.gcs, 0 ≤ g.curMax ∧ g.currentLoad ≤ g.curMax)
+    (h : ruleStep rule ops env w = .ok (w', cmds)) :
+    ∀ g ∈ w'.gcs, g.currentLoad ≤ g.curMax := by
+  unfold ruleStep at h
+  rw [availBatPower_nobat ops w hb] at h
+  simp only [bind, Except.bind] at h
+  split at h
+  · cases h
+  · rename_i st1 hfold
+    obtain ⟨w1, c1, a1⟩ := st1
+    simp only at h
+    split at h
+    · cases h
+    · rename_i st2 hsur
+      obtain ⟨w2, c2⟩ := st2
+      simp only at h
+      split at h
+      · cases h
+      · rename_i w3 hub
+        simp only [Except.ok.injEq, Prod.mk.injEq] at h
+        obtain ⟨rfl, _⟩ := h
+        -- vehicle pass
+        have hinv0 : LoopInv (fun _ => (0 : α)) (resetStations w) (w.gcs.map (fun g => (g.id, (0 : α)))) := by
+          intro g hg
+          have hz : availOf (w.gcs.map (fun g => (g.id, (0 : α)))) g.id = 0 :=
+            alGet_zero_of_all_zero _ (by intro kv hkv; simp only [List.mem_map] at hkv
+                                         obtain ⟨x, _, rfl⟩ := hkv; rfl) _
+          rw [hz]
+          simp only [resetStations_gcs] at hg
+          exact ⟨by simpa using (h0 g hg).2, le_refl _, le_refl _⟩
+        have hinv1 := allocFold_inv rule ops law env (fun _ => (0 : α)) _ _ (w1, c1, a1) hinv0 hfold
+        have hbat1 : w1.batteries = [] := by
+          have := allocFold_batteries rule ops env _ _ (w1, c1, a1) hfold
+          simpa [hb] using this
+        have hbelow1 : Below (fun _ => (0 : α)) w1 := by
+          intro g hg
+          obtain ⟨h1, h2, h3⟩ := hinv1 g hg
+          have : availOf a1 g.id = 0 := le_antisymm h3 h2
+          simpa [this] using h1
+        -- curMax is never changed by the vehicle pass: re-derive 0 ≤ curMax from the invariant
+        have hcm1 : ∀ g ∈ w1.gcs, 0 ≤ g.curMax := by
+          -- the pass only replaces connectors by `addLoad` results, which keep `curMax`;
+          -- proved by a second, simpler invariant
+          have key : ∀ (ids : List String) (st st' : World α B × List (String × α) × List (String × α)),
+              (∀ g ∈ st.1.gcs, 0 ≤ g.curMax) →
+              ids.foldlM (allocVehicle rule ops env) st = .ok st' → ∀ g ∈ st'.1.gcs, 0 ≤ g.curMax := by
+            intro ids
+            induction ids with
+            | nil =>
+              intro st st' hc hf
+              simp only [List.foldlM_nil, pure, Except.pure, Except.ok.injEq] at hf
+              subst hf; exact hc
+            | cons id rest ih =>
+              intro st st' hc hf
+              simp only [List.foldlM_cons, bind, Except.bind] at hf
+              split at hf
+              · cases hf
+              · rename_i st1 hs
+                refine ih st1 st' ?_ hf
+                unfold allocVehicle at hs
+                split at hs
+                · cases hs
+                · split at hs
+                  · simp only [Except.ok.injEq] at hs; subst hs; exact hc
+                  · split at hs
+                    · cases hs
+                    · split at hs
+                      · cases hs
+                      · rename_i gc hgc
+                        obtain ⟨hgm, _⟩ := gc?_some _ _ gc hgc
+                        simp only [bind, Except.bind] at hs
+                        split at hs
+                        · cases hs
+                        · split at hs
+                          · cases hs
+                          · split at hs
+                            · cases hs
+                            · simp only [Except.ok.injEq] at hs
+                              subst hs
+                              intro g hg
+                              simp only [setStation_gcs] at hg
+                              rcases mem_setGc _ _ g hg with rfl | ⟨hgm', _⟩
+                              · rw [(addLoad_currentLoad gc _ _).2.1]; exact hc gc hgm
+                              · exact hc g hgm'
+          exact key _ _ (w1, c1, a1) (fun g hg => (h0 g (by simpa using hg)).1) hfold
+        -- surplus pass
+        obtain ⟨hbelow2, _⟩ := distributeSurplus_below ops law env heps (fun _ => (0 : α))
+          (fun _ => le_refl _) w1 w2 c2 hcm1 hbelow1 hsur
+        have hbat2 : w2.batteries = [] := by
+          rw [distributeSurplus_batteries ops env w1 w2 c2 hsur]; exact hbat1
+        -- battery pass is the identity
+        have : w3 = w2 := updateBatteries_nobat ops env w2 w3 hbat2 hub
+        subst this
+        intro g hg
+        simpa using hbelow2 g hg
+
+/-- **Invariant of the vehicle pass with stationary-battery support** (greedy reserves battery
+power `A0 − remaining`): a connector exceeds its limit at most by the support reserved so far. -/
+theorem C04_greedy_balanced_loop (rule : Rule) {B : Type} (ops : BatOps α B) (law : BatLaw ops)
+    (env : StratEnv α) (A0 : String → α) (ids : List String)
+    (st st' : World α B × List (String × α) × List (String × α))
+    (hinv : LoopInv A0 st.1 st.2.2)
+    (h : ids.foldlM (allocVehicle rule ops env) st = .ok st') : LoopInv A0 st'.1 st'.2.2 :=
+  allocFold_inv rule ops law env A0 ids st st' hinv h
 
 end SpiceEv
